@@ -48,6 +48,14 @@ DynamicTwin == [split |-> "split", pop_back |-> "pop_back", pop_front |-> "pop_f
 ConsistentWithDynamic(op, n, m, k) ==
     op \in DOMAIN DynamicTwin => (Accept(op, n, m, k) <=> Defined(DynamicTwin[op], <<n>>, k))
 
+(* (iv) trait-level length relations: what a function GENERIC over the sequence traits may rely on - the
+   associated-type equalities the traits declare.  Each row is a generic function whose body type-checks exactly
+   when the relation is provable from the declared bounds; the twin asserts the relation, the non-twin an equality
+   that nothing declares.                                                                                        *)
+GenericRels == {"sequence_same_length", "mapped_same_length", "lengthen_then_shorten", "shorten_then_lengthen",
+                "lengthen_roundtrip_values", "shorten_roundtrip_values", "concat_rest_length",
+                "flatten_source_length", "flatten_output_length", "unflatten_source_length", "unflatten_output_length"}
+
 Traits == {"Send", "Sync", "Clone", "Copy"}
 Elems == {"u8", "string", "rc", "cell", "rawptr", "noclone", "mutexguard"}
 Has(tr, e) ==
